@@ -8,7 +8,7 @@ into several occurrences), is decoded by Unmarshal to the same values"
 
 is stated as agreement of the two decoders on all inputs: `Spec.Protobuf.decode` is the liberal reference decoder
 (fields in any order, varints of up to 10 bytes, last scalar wins, repeated fields accumulate, embedded messages merge,
-unknown fields skipped); whatever byte string it accepts, `Model.Proto.unmarshal` accepts and returns LITERALLY the same
+unknown fields skipped); whatever byte string it accepts, `Model.Proto.unmarshalU` accepts and returns LITERALLY the same
 value (hence also the same `canonical` form).
 
 Universe: `tyOK (.struct fs)` (`ProtoWireRec`): fields `bool`, `int int32 int64 uint uint32 uint64` (plain, zigzag32/64
@@ -19,10 +19,10 @@ on the signed kinds, fixed32/64 on `uint32/uint64`, sfixed32/64 on `int32/int64`
 both sides read the struct tag alike (`tagAgree`).  Not in the universe: maps, arrays, named types, `RawMessage`,
 `[]*T`, `**T`.
 
-  * `unmarshal_of_decode`        `Spec.decode (.struct fs) b = some v → unmarshal (.struct fs) b = .ok v`   (any `b`)
-  * `unmarshal_decode_canonical` the form asked for: `∃ v', unmarshal … = .ok v' ∧ canonical … v' = canonical … v`
+  * `unmarshal_of_decode`        `Spec.decode (.struct fs) b = some v → unmarshalU (.struct fs) b = .ok v`   (any `b`)
+  * `unmarshal_decode_canonical` the form asked for: `∃ v', unmarshalU … = .ok v' ∧ canonical … v' = canonical … v`
   * `unmarshal_reencoding`       two inputs the reference maps to the same value are unmarshalled to the same value
-  * `unmarshal_reject`           contrapositive: if `unmarshal` fails, the reference rejects the input as well
+  * `unmarshal_reject`           contrapositive: if `unmarshalU` fails, the reference rejects the input as well
   * `unmarshal_of_decode_ptrmsg_partial`  the message passed by pointer-to-pointer (`Unmarshal(b, &p)`, `p *Msg`),
                                  NON-EMPTY input only (on the empty input the Go decoder leaves `p` nil, see
                                  `ProtoLiberalFindings` L2)
@@ -56,7 +56,7 @@ theorem spec_decode_struct (fs : Fields) (b : Bytes) (v : Val) (h : Spec.Protobu
 theorem decode_toplevel_of_spec (fs : Fields) (hty : tyOK (.struct fs) = true) (b : Bytes) (v : Val) (fl : Flags)
     (hfl : fl.zigzag = false) (h : Spec.Protobuf.decode (.struct fs) b = some v) :
     ∃ vs, v = .struct vs ∧
-      ∃ f, decode f (codecOf (.struct fs)) b (zeroOf (.struct fs)) fl = .ok (.struct vs, b.length) := by
+      ∃ f, decodeU f (codecOf (.struct fs)) b (zeroOf (.struct fs)) fl = .ok (.struct vs, b.length) := by
   obtain ⟨recs, vs, hp, hd, rfl⟩ := spec_decode_struct fs b v h
   have hseg := loop_agree _ fs { fl with toplevel := false } b recs _ vs hty hfl hp hd
   obtain ⟨f, hf⟩ := hseg.run
@@ -73,7 +73,7 @@ lengths and values, repeated occurrences of a scalar (last wins), occurrences of
 input (appended in input order), embedded messages split into several occurrences (merged), optional fields, unknown
 fields of the four wire types, and the empty input. -/
 theorem unmarshal_of_decode (fs : Fields) (hty : tyOK (.struct fs) = true) (b : Bytes) (v : Val)
-    (h : Spec.Protobuf.decode (.struct fs) b = some v) : unmarshal (.struct fs) b = .ok v := by
+    (h : Spec.Protobuf.decode (.struct fs) b = some v) : unmarshalU (.struct fs) b = .ok v := by
   by_cases hb : b = []
   · subst hb
     obtain ⟨recs, vs, hp, hd, rfl⟩ := spec_decode_struct fs [] v h
@@ -83,26 +83,26 @@ theorem unmarshal_of_decode (fs : Fields) (hty : tyOK (.struct fs) = true) (b : 
     subst hd
     have hty' := hty
     simp only [tyOK, Bool.and_eq_true, decide_eq_true_eq] at hty'
-    simp only [unmarshal, List.isEmpty_nil, if_true, zeroOf, zeroFields_eq fs 1 hty'.1]
+    simp only [unmarshalU, List.isEmpty_nil, if_true, zeroOf, zeroFields_eq fs 1 hty'.1]
   · obtain ⟨vs, rfl, hf⟩ := decode_toplevel_of_spec fs hty b v { toplevel := true } rfl h
     exact unmarshal_ok (.struct fs) b (.struct vs) hb hf
 
 /-- the statement in the form of the task: agreement up to the harness's normal form -/
 theorem unmarshal_decode_canonical (fs : Fields) (hty : tyOK (.struct fs) = true) (b : Bytes) (v : Val)
     (h : Spec.Protobuf.decode (.struct fs) b = some v) :
-    ∃ v', unmarshal (.struct fs) b = .ok v' ∧ canonical (.struct fs) v' = canonical (.struct fs) v :=
+    ∃ v', unmarshalU (.struct fs) b = .ok v' ∧ canonical (.struct fs) v' = canonical (.struct fs) v :=
   ⟨v, unmarshal_of_decode fs hty b v h, rfl⟩
 
 /-- any two inputs that the reference reads as the same message (e.g. the canonical encoding and a re-encoding of it)
 are unmarshalled to the same value -/
 theorem unmarshal_reencoding (fs : Fields) (hty : tyOK (.struct fs) = true) (b b' : Bytes) (v : Val)
     (h : Spec.Protobuf.decode (.struct fs) b = some v) (h' : Spec.Protobuf.decode (.struct fs) b' = some v) :
-    unmarshal (.struct fs) b = unmarshal (.struct fs) b' := by
+    unmarshalU (.struct fs) b = unmarshalU (.struct fs) b' := by
   rw [unmarshal_of_decode fs hty b v h, unmarshal_of_decode fs hty b' v h']
 
 /-- the Go decoder is at least as liberal as the reference: an input it rejects is rejected by the reference too -/
 theorem unmarshal_reject (fs : Fields) (hty : tyOK (.struct fs) = true) (b : Bytes) (e : String)
-    (h : unmarshal (.struct fs) b = .err e) : Spec.Protobuf.decode (.struct fs) b = none := by
+    (h : unmarshalU (.struct fs) b = .err e) : Spec.Protobuf.decode (.struct fs) b = none := by
   cases hd : Spec.Protobuf.decode (.struct fs) b with
   | none => rfl
   | some v => rw [unmarshal_of_decode fs hty b v hd] at h; cases h
@@ -110,7 +110,7 @@ theorem unmarshal_reject (fs : Fields) (hty : tyOK (.struct fs) = true) (b : Byt
 /-- … and it never panics on the universe: (from C07) the codec tree of a universe type has no unsupported kind.  Stated
 here only through the main theorem: on accepted inputs the result is `ok`. -/
 theorem unmarshal_ne_panic_of_decode (fs : Fields) (hty : tyOK (.struct fs) = true) (b : Bytes) (v : Val) (e : String)
-    (h : Spec.Protobuf.decode (.struct fs) b = some v) : unmarshal (.struct fs) b ≠ .panic e := by
+    (h : Spec.Protobuf.decode (.struct fs) b = some v) : unmarshalU (.struct fs) b ≠ .panic e := by
   rw [unmarshal_of_decode fs hty b v h]; simp
 
 /-- the message passed by pointer (`var p *Msg; Unmarshal(b, &p)`): same agreement on every NON-EMPTY input.
@@ -118,7 +118,7 @@ Exclusion (`_partial`): `b = []`, where `Unmarshal` returns before touching `p` 
 yields a pointer to the zero message — `ProtoLiberalFindings` L2. -/
 theorem unmarshal_of_decode_ptrmsg_partial (fs : Fields) (hty : tyOK (.struct fs) = true) (b : Bytes) (v : Val)
     (hb : b ≠ []) (h : Spec.Protobuf.decode (.ptr (.struct fs)) b = some v) :
-    unmarshal (.ptr (.struct fs)) b = .ok v := by
+    unmarshalU (.ptr (.struct fs)) b = .ok v := by
   have h' : Spec.Protobuf.decode (.struct fs) b = (Spec.Protobuf.decode (.ptr (.struct fs)) b).bind fun x =>
       match x with | .ptr y => some y | _ => none := by
     simp only [Spec.Protobuf.decode, Spec.Protobuf.deref, Option.bind_eq_bind, Option.pure_def]
